@@ -19,6 +19,9 @@ def make_script(rng, name, kind=None, plan=None, nkeys=None, length=None):
     stamp = 0
     steps = 0
     sizes = {"A": 0, "B": 0}
+    # half of the scripts: the two sets carry DIFFERENT hasher state (a seed of B's own)
+    if rng.random() < 0.5:
+        lines.append(f"B salt {rng.randrange(1, 1 << 32)}")
     # the empty set paired with itself, never allocated / emptied but allocated
     for op in rng.sample(SELFOPS, 4):
         lines.append("self " + op)
